@@ -179,10 +179,29 @@ func (r *Roles) resolveFilters(p *an.Prog) {
 		}
 		fname, ok := an.ConstString(c.Args[0])
 		if !ok {
+			// registered from a table of {name, function} rows
+			if rows := tableRows(c.Args[0], c.Args[1]); len(rows) > 0 {
+				for _, row := range rows {
+					flt := &Filter{Name: row.name, Fn: row.fn, Sig: row.fn.Signature, Pos: ci.Pos(), InMod: p.InModule(row.fn)}
+					r.Filters = append(r.Filters, flt)
+					if r.FilterByFn[row.fn] == nil {
+						r.FilterByFn[row.fn] = flt
+					}
+				}
+				return
+			}
 			r.problem("AddFilter with a non-constant name at %s", p.Pos(ci.Pos()))
 			return
 		}
 		f := funcValue(c.Args[1])
+		if f == nil {
+			// an adapter: a function of the module that returns the filter as a closure
+			if ac := an.CallOf(an.Strip(c.Args[1])); ac != nil {
+				if callee := ac.StaticCallee(); callee != nil && p.InModule(callee) {
+					f = returnedClosure(callee)
+				}
+			}
+		}
 		if f == nil {
 			r.problem("AddFilter(%q): function value not resolved at %s", fname, p.Pos(ci.Pos()))
 			return
@@ -648,6 +667,28 @@ func tableRows(nameArg, fnArg ssa.Value) []tableRow {
 			if sl, ok := ia.X.(*ssa.Slice); ok {
 				if al, ok := sl.X.(*ssa.Alloc); ok {
 					return al, field, true
+				}
+			}
+			// a package-level table: the literal is built by the package initialiser
+			if ld, ok := ia.X.(*ssa.UnOp); ok {
+				if g, ok := ld.X.(*ssa.Global); ok && g.Pkg != nil {
+					if init := g.Pkg.Func("init"); init != nil {
+						var lit *ssa.Alloc
+						n := 0
+						an.EachInstr(init, func(in ssa.Instruction) {
+							if st, ok := in.(*ssa.Store); ok && st.Addr == ssa.Value(g) {
+								n++
+								if sl, ok := st.Val.(*ssa.Slice); ok {
+									if al, ok := sl.X.(*ssa.Alloc); ok {
+										lit = al
+									}
+								}
+							}
+						})
+						if lit != nil && n == 1 && len(an.GlobalStores(g)) == 1 {
+							return lit, field, true
+						}
+					}
 				}
 			}
 		}
